@@ -24,6 +24,7 @@
 //!   ["flush"]                             deliver every packet now on the wire, in order
 //!   ["netstat", host] / ["counts", host] / ["rows", host]
 //!   ["udp_bind", slot, host, ia, port] / ["udp_send", slot, len, ia, port]
+//!   ["accept_w", lslot, nslot, task] / ["woken", task]   accept polled with the waker of a simulated task; was it woken?
 //!   ["set_isn", host, value]              verif hook: next initial sequence number of that host
 //!   ["udp_connect", slot, ia, port] / ["udp_send_c", slot, len]   connected UDP: connect, then send / try_send
 //! One observation per command, same index.
@@ -34,10 +35,23 @@ use std::future::Future;
 use std::io;
 use std::net::{IpAddr, Ipv4Addr, Ipv6Addr, SocketAddr};
 use std::pin::Pin;
-use std::task::{Context, Poll, Waker};
+use std::sync::atomic::{AtomicBool, Ordering};
+use std::sync::Arc;
+use std::task::{Context, Poll, Wake, Waker};
 use tokio::io::{AsyncWrite, ReadBuf};
 use turmoil_net::shim::tokio::net::{TcpListener, TcpStream, UdpSocket};
 use turmoil_net::{HostId, KernelConfig, Net, Packet, Transport};
+
+/// Waker of a simulated task: remembers that it was woken.
+struct WakeFlag(AtomicBool);
+impl Wake for WakeFlag {
+    fn wake(self: Arc<Self>) {
+        self.0.store(true, Ordering::SeqCst);
+    }
+    fn wake_by_ref(self: &Arc<Self>) {
+        self.0.store(true, Ordering::SeqCst);
+    }
+}
 
 type ConnFut = Pin<Box<dyn Future<Output = io::Result<TcpStream>>>>;
 
@@ -156,6 +170,7 @@ fn run_case(case: &Value) -> Value {
     // Declared after the guard so that slots are dropped first.
     let mut slots: BTreeMap<u64, Slot> = BTreeMap::new();
     let mut wire: Vec<Packet> = Vec::new();
+    let mut tasks: BTreeMap<u64, Arc<WakeFlag>> = BTreeMap::new();
     let mut obs: Vec<Value> = Vec::new();
 
     for cmd in case["script"].as_array().unwrap() {
@@ -164,7 +179,7 @@ fn run_case(case: &Value) -> Value {
         // A handle is never created in an occupied slot (no implicit drop of the old handle).
         let target = match name {
             "listen" | "connect" | "udp_bind" => c[1].as_u64(),
-            "accept" => c[2].as_u64(),
+            "accept" | "accept_w" => c[2].as_u64(),
             _ => None,
         };
         if target.map_or(false, |t| slots.contains_key(&t)) {
@@ -251,13 +266,29 @@ fn run_case(case: &Value) -> Value {
                     None => json!({"r": "noslot"}),
                 }
             }
-            "accept" => {
+            "woken" => {
+                // was the waker of task c[1] woken since the last `woken`? (outside the model: a no-op there)
+                let tid = c[1].as_u64().unwrap();
+                match tasks.get(&tid) {
+                    Some(f) => json!({"r": "none", "woken": f.0.swap(false, Ordering::SeqCst)}),
+                    None => json!({"r": "none", "woken": false}),
+                }
+            }
+            "accept" | "accept_w" => {
                 let ls = c[1].as_u64().unwrap();
                 let ns = c[2].as_u64().unwrap();
                 let res = match slots.get(&ls) {
                     Some(Slot::Listener(l, h)) => {
                         guard.set_current(hosts[*h]);
-                        let mut cx = Context::from_waker(Waker::noop());
+                        // "accept": no-op waker; "accept_w": the waker of (simulated) task c[3], a flag
+                        // that `woken` reads - a task that never polls again models an abandoned accept().
+                        let waker = if name == "accept_w" {
+                            let tid = c[3].as_u64().unwrap();
+                            Waker::from(tasks.entry(tid).or_insert_with(|| Arc::new(WakeFlag(AtomicBool::new(false)))).clone())
+                        } else {
+                            Waker::noop().clone()
+                        };
+                        let mut cx = Context::from_waker(&waker);
                         Some((l.poll_accept(&mut cx), *h))
                     }
                     _ => None,
